@@ -11,8 +11,13 @@ use std::process::Command;
 
 fn read_fst(path: &Path) -> Option<Vec<Kv>> {
     let bytes = std::fs::read(path).ok()?;
-    let f = fst::raw::Fst::new(bytes).ok()?;
-    Some(f.stream().into_byte_vec())
+    // (a file the tool left behind may be anything: reading it must not take the recorder down)
+    guard(|| {
+        let f = fst::raw::Fst::new(bytes).ok()?;
+        Some(f.stream().into_byte_vec())
+    })
+    .ok()
+    .flatten()
 }
 
 fn gen_rows(r: &mut StdRng, n: usize, nkeys: usize, dupfree: bool, allow_empty: bool) -> Vec<(String, u64)> {
@@ -140,12 +145,20 @@ pub fn c19(log: &mut Log, seed: u64, tier: &str, fst_bin: &str, work: &str) {
             let _ = std::fs::remove_file(&tr);
             let out = work.join("out.fst");
             let _ = std::fs::remove_file(&out);
+            // every other run overwrites (--force) a longer file that is already at the output path
+            let overwrite = sd % 2 == 1;
+            if overwrite {
+                std::fs::write(&out, vec![0xABu8; 6000]).unwrap();
+            }
             let mut cmd = Command::new(fst_bin);
             cmd.arg(if is_set { "set" } else { "map" });
             for p in &inputs {
                 cmd.arg(p);
             }
             cmd.arg(&out).arg("--batch-size").arg(bs.to_string()).arg("--fd-limit").arg(fd.to_string()).arg("--threads").arg(threads.to_string()).arg("--keep-tmp-dir");
+            if overwrite {
+                cmd.arg("--force");
+            }
             if mode == "max" {
                 cmd.arg("--max");
             } else if mode == "min" {
